@@ -120,6 +120,79 @@ def stream (blk : Block) : Except Wire.Err Bytes :=
 
 end Block
 
+/-! ## Bitcoin Gold: `pycoin/coins/bgold/Block.py` (its own header layout; everything else inherited from `Block`) -/
+
+structure BtgHeader where
+  version : Int
+  prev : Bytes
+  merkleRoot : Bytes
+  height : Int
+  timestamp : Int
+  difficulty : Int
+  nonce : Bytes
+  solution : Bytes
+  deriving DecidableEq, Repr
+
+structure BtgBlock where
+  hdr : BtgHeader
+  txs : List Tx
+  deriving DecidableEq, Repr
+
+namespace BtgBlock
+open Pycoin.Gen.Messages (btgBlock_parse_as_header_parse btgBlock_parse_as_header_parse_2 btgBlock_stream_header_stream
+  btgBlock_stream_header_stream_2 btgReserved block_parse_parse_count)
+
+/-- `parse_as_header`: `parse_struct("L##L")`, `f.read(28)` (reserved, ignored, silently short), `parse_struct("LL#S")` -/
+def parseAsHeader : Parser BtgHeader := fun b =>
+  match parseStruct tbl btgBlock_parse_as_header_parse b with
+  | .error e => .error e
+  | .ok ([.int v, .bytes p, .bytes m, .int h], r) =>
+    match parseStruct tbl btgBlock_parse_as_header_parse_2 (r.drop btgReserved.1) with
+    | .error e => .error e
+    | .ok ([.int t, .int d, .bytes n, .bytes s], r') => .ok (⟨v, p, m, h, t, d, n, s⟩, r')
+    | .ok _ => .error .typeError
+  | .ok _ => .error .typeError
+
+/-- `stream_header` -/
+def streamHeader (h : BtgHeader) : Except Wire.Err Bytes :=
+  match streamStruct tbl btgBlock_stream_header_stream [.int h.version, .bytes h.prev, .bytes h.merkleRoot, .int h.height] with
+  | .error e => .error e
+  | .ok a =>
+    match streamStruct tbl btgBlock_stream_header_stream_2 [.int h.timestamp, .int h.difficulty, .bytes h.nonce, .bytes h.solution] with
+    | .error e => .error e
+    | .ok c => .ok (a ++ (List.replicate btgReserved.2 0 ++ c))
+
+/-- the inherited `Block.parse` with this header and `check_merkle_hash` -/
+def parse (c : Coin) : Bytes → Except Msg.Err (BtgBlock × Bytes) := fun b =>
+  match parseAsHeader b with
+  | .error e => .error (.wire e)
+  | .ok (h, r) =>
+    match parseStruct tbl block_parse_parse_count r with
+    | .error e => .error (.wire e)
+    | .ok ([.int n], r) =>
+      match parseN (Tx.parse c) n.toNat r with
+      | .error e => .error (.wire e)
+      | .ok (txs, r) =>
+        if txs.isEmpty then .ok (⟨h, txs⟩, r)
+        else
+          match Block.txHashes c txs with
+          | .error e => .error (.wire e)
+          | .ok hs =>
+            match Merkle.merkle Pycoin.Hash.dsha256 hs with
+            | .error _ => .error .indexError
+            | .ok root => if root ≠ h.merkleRoot then .error .badMerkleRootError else .ok (⟨h, txs⟩, r)
+    | .ok _ => .error .typeError
+
+def stream (blk : BtgBlock) : Except Wire.Err Bytes :=
+  match streamHeader blk.hdr with
+  | .error e => .error e
+  | .ok h =>
+    match Block.streamTransactions blk.txs with
+    | .error e => .error e
+    | .ok t => .ok (h ++ t)
+
+end BtgBlock
+
 /-! ## a `Block` object over time: public attributes can be reassigned, `hash()` keeps a cache attribute -/
 
 /-- header fields, transactions, and the instance attribute `_Block__hash` (`none` = not set) -/
